@@ -82,6 +82,13 @@ def run(ctx):
             gd = P.gen_invertible_graph(rng, 200)
             if (gd["kind"] == "matrix") == want_matrix and (not want_matrix or (gd["modulo"] != 0 and gd["modulo"] <= 120)):
                 break
+        small_first = False
+        if want_matrix and gi % 6 == 5:
+            # a modulus that does NOT fit the narrow integer types although the entries of the states do (200 > 127, 70000 > 32767, 2^31 > int32):
+            # nothing may be computed with the modulus in the dtype of the caller's container
+            gd = G.gen_shear_matrix_graph(rng)
+            gd = dict(gd, mats=[M_ for M_ in gd["mats"] if M_[1][1] == 1])
+            small_first = True
         if gi % 3 == 1:
             # states whose code needs more than 32 (and often more than 64) bits: a conversion done in the caller's own narrow dtype loses the high part
             for _ in range(200):
@@ -96,6 +103,10 @@ def run(ctx):
         ic = G.is_inverse_closed_ref(gd)
         one = [list(rng.choice(verts))]
         two = [list(rng.choice(verts)), list(rng.choice(verts))]
+        if small_first:
+            by_size = sorted(verts, key=lambda v_: (max(v_), v_))
+            one = [list(by_size[min(1, len(by_size) - 1)])]
+            two = [list(by_size[0]), list(by_size[min(2, len(by_size) - 1)])]
         path = [rng.randrange(G.n_gens(gd)) for _ in range(3)]
         tag = f"{gd['kind']}/{'encoded' if encoded else 'plain'}"
 
